@@ -1,0 +1,29 @@
+//go:build verif
+
+package common
+
+import "sync"
+
+// VerifLockHook, when non-nil, is called by every hooked lock site with
+// phase 0 just before the mutex is acquired and with phase 1 after it has
+// been released again. It only exists in builds with the "verif" tag and
+// is used by the external runtime-verification harness to steer or perturb
+// goroutine interleavings at lock-acquisition granularity.
+var VerifLockHook func(mu *sync.Mutex, phase int)
+
+// VerifLockSite marks a lock site. Use as the first statement of a method
+// that locks mu for its whole duration:
+//
+//	defer common.VerifLockSite(&mu)()
+func VerifLockSite(mu *sync.Mutex) func() {
+	h := VerifLockHook
+	if h == nil {
+		return verifNoop
+	}
+
+	h(mu, 0)
+
+	return func() { h(mu, 1) }
+}
+
+func verifNoop() {}
